@@ -97,6 +97,36 @@ fn check_history(h: &[Tree], label: &str) -> Option<Witness> {
     None
 }
 
+/// the other positions that hold a condition: HAVING, UPDATE / DELETE .. WHERE, JOIN .. ON, CASE WHEN (one tree each)
+fn check_positions(t: &Tree, label: &str) -> Option<Witness> {
+    let cond = |t: &Tree| -> Condition { match build(t) { ConditionExpression::Condition(c) => c, ConditionExpression::SimpleExpr(e) => Cond::all().add(e) } };
+    let a = |s: &str| Alias::new(s);
+    let mut cases: Vec<(&str, String, &str, &str)> = vec![];   // (position, sql, text before the predicate, text after it)
+    cases.push(("HAVING", Query::select().column(a("x")).from(a("t")).cond_having(cond(t)).to_string(PostgresQueryBuilder), " HAVING ", ""));
+    cases.push(("UPDATE WHERE", Query::update().table(a("t")).value(a("x"), 1).cond_where(cond(t)).to_string(PostgresQueryBuilder), " WHERE ", ""));
+    cases.push(("DELETE WHERE", Query::delete().from_table(a("t")).cond_where(cond(t)).to_string(PostgresQueryBuilder), " WHERE ", ""));
+    cases.push(("JOIN ON", Query::select().column(a("x")).from(a("t")).inner_join(a("u"), cond(t)).to_string(PostgresQueryBuilder), " ON ", ""));
+    cases.push(("CASE WHEN", Query::select().expr(Expr::case(cond(t), 1).finally(0)).from(a("t")).to_string(PostgresQueryBuilder), "WHEN (", ") THEN "));
+    for (pos, sql, before, after) in cases {
+        let rest = match sql.split_once(before) { Some((_, r)) => r, None => {
+            // an empty `all` group means TRUE: no predicate at all is equivalent for WHERE / HAVING
+            let env = [TV::T, TV::T, TV::T];
+            if matches!(pos, "HAVING" | "UPDATE WHERE" | "DELETE WHERE") && [TV::T, TV::F, TV::U].iter().all(|x| sem(t, &[*x, *x, *x]) == TV::T) && sem(t, &env) == TV::T { continue; }
+            return Some(Witness { property: "C06", input: format!("{pos}: {label}"), observed: format!("no predicate in {sql}"), expected: "a predicate".into() }) } };
+        let pred = if after.is_empty() { rest } else { match rest.rsplit_once(after) { Some((p, _)) => p, None => rest } };
+        let vals = [TV::T, TV::F, TV::U];
+        for x in vals { for y in vals { for z in vals {
+            let env = [x, y, z];
+            let want = sem(t, &env);
+            match eval_sql(pred, &env) {
+                Some(got) if got == want => {}
+                other => return Some(Witness { property: "C06", input: format!("{pos}: {label}"), observed: format!("{pos} {pred} evaluates to {other:?} under a,b,c = {env:?}   [{sql}]"), expected: format!("{want:?}") }),
+            }
+        } } }
+    }
+    None
+}
+
 /// depth-3 chains of single-member / negated groups (the shapes the builder rewrites while adding)
 fn chains() -> Vec<Tree> {
     let mut v = vec![];
@@ -139,6 +169,7 @@ fn search_mode(_obl: &str) -> Vec<Witness> {
     if let Some(w) = check_history(&[], "[]") { found.push(w); }
     for (i, a) in ts.iter().enumerate() {
         if let Some(w) = check_history(&[a.clone()], &format!("[{i}] = {a:?}")) { found.push(w); if found.len() >= 6 { return found; } }
+        if let Ok(Some(w)) = std::panic::catch_unwind(std::panic::AssertUnwindSafe(|| check_positions(a, &format!("[{i}] = {a:?}")))) { found.push(w); if found.len() >= 6 { return found; } }
     }
     for (i, a) in ts.iter().enumerate().step_by(7) { for (j, b) in ts.iter().enumerate().step_by(11) {
         if let Some(w) = check_history(&[a.clone(), b.clone()], &format!("[{i},{j}] = {a:?} ; {b:?}")) { found.push(w); if found.len() >= 6 { return found; } }
@@ -154,6 +185,12 @@ pub fn check_one(label: &str) -> Option<Witness> {
     }
     if label.contains("chain#") { return search_mode("").into_iter().find(|w| w.input == label); }
     let ts = trees(2);
+    if let Some((pos, rest)) = label.split_once(": [") {
+        if ["HAVING", "UPDATE WHERE", "DELETE WHERE", "JOIN ON", "CASE WHEN"].contains(&pos) {
+            let i: usize = rest.split(']').next()?.parse().ok()?;
+            return check_positions(ts.get(i)?, &format!("[{}", rest));
+        }
+    }
     let idx: Vec<usize> = label.trim_start_matches('[').split(']').next()?.split(',').filter_map(|x| x.trim().parse().ok()).collect();
     let h: Vec<Tree> = idx.iter().filter_map(|&i| ts.get(i).cloned()).collect();
     check_history(&h, label)
